@@ -150,6 +150,21 @@ func shrink(t *testing.T, prop, tier string, tape []int, sig string, budget time
 		}
 		tries++
 		res := execute(t, prop, tier, NewReplay(cand))
+		if replayInexact(prop) {
+			// free-running parallel executions: the same tape shows the violation only with some probability; a
+			// candidate is kept only if it shows it in two of up to four executions (so that the result replays)
+			hits := 0
+			if res.Harness == "" && hasSig(res, sig) {
+				hits++
+			}
+			for k := 0; k < 3 && hits < 2 && hits+3-k >= 2; k++ {
+				res = execute(t, prop, tier, NewReplay(cand))
+				if res.Harness == "" && hasSig(res, sig) {
+					hits++
+				}
+			}
+			return hits >= 2
+		}
 		return res.Harness == "" && hasSig(res, sig)
 	}
 	cur := append([]int(nil), tape...)
@@ -425,6 +440,11 @@ func replayMain(t *testing.T) {
 	}
 	replayInputs = rf.Inputs
 	res := execute(t, rf.Property, rf.Tier, NewReplay(rf.Tape))
+	for k := 0; k < 30 && replayInexact(rf.Property) && res.Harness == "" && !hasSig(res, rf.Signature); k++ {
+		// free-running parallel mode: which goroutine meets which is not ours to decide there; the same program is
+		// executed again (bounded) until the recorded violation shows
+		res = execute(t, rf.Property, rf.Tier, NewReplay(rf.Tape))
+	}
 	if res.Harness != "" {
 		fmt.Printf("REPLAY-HARNESS-TROUBLE %s\n", res.Harness)
 		t.Fatalf("harness trouble: %s", res.Harness)
